@@ -280,6 +280,12 @@ func (eng *Engine) report(prop, tier, verifDir string, units []*FuncUnit, report
 			"gen_secs": round3(r.GenSecs), "solve_secs": round3(r.SolveSecs), "opaque_callees": r.Opaque, "contract_callees": r.Callees, "abstractions": r.Notes})
 		if verbose {
 			fmt.Printf("  %-70s %d/%d  gen %.2fs solve %.2fs\n", r.Func, nOK, n, r.GenSecs, r.SolveSecs)
+			if len(r.Opaque) > 0 {
+				fmt.Printf("      opaque callees: %s\n", strings.Join(r.Opaque, ", "))
+			}
+			for _, nt := range r.Notes {
+				fmt.Printf("      abstraction: %s\n", nt)
+			}
 		}
 	}
 	for _, u := range eng.undecided {
